@@ -53,6 +53,27 @@ class PM(pydantic.BaseModel):
     c: Any = pydantic.Field(default_factory=list)
 
 
+@dataclass
+class DI:
+    """a field that is no constructor argument"""
+
+    w: Any
+    h: Any = 2
+    area: Any = field(init=False, default=None)
+
+    def __post_init__(self):
+        self.area = (self.w, self.h)
+
+
+@attrs.define
+class AP:
+    """a private attribute (constructor argument `token`) and a field that is no constructor argument"""
+
+    name: Any
+    _token: Any = "t"
+    calls: Any = attrs.field(init=False, default=0)
+
+
 NT = namedtuple("NT", "a b c", defaults=[3])
 
 
